@@ -115,10 +115,63 @@ def rule_fields(crate, prop, tier):
                 if not paths or paths[0] not in prog.fns:
                     continue
                 fw = fieldwise(crate, paths[0], S, mname)
+                if fw and mname == "eq":
+                    miss = eq_ignores_field(crate, paths[0], S)
+                    if miss:
+                        o.check(False, prog.pretty[paths[0]], "eq-compares-every-field", "the hand-written eq can return true although the "
+                                "operands differ in field `%s` (Hash / Ord are derived over all fields, so equal values would hash or "
+                                "order differently)" % miss, prog.fns[paths[0]]["span"])
                 o.check(fw, prog.pretty[paths[0]], "fieldwise:" + mname, "%s is hand-written and does not compare / hash exactly the fields, while "
                         "other comparison traits of %s are derived field-wise: `a == b`, `a.cmp(&b) == Equal` and equal hashes can disagree"
                         % (mname, S.split("::")[-1]), prog.fns[paths[0]]["span"])
     return o.report(floors={"representation structs": (o.instances, 5)})
+
+
+def eq_ignores_field(crate, path, S):
+    """name of a field f such that eq() can return true on a path that never established self.f == other.f; None when every
+    true-returning path compares every field (or the shape of the return value is not interpreted)"""
+    from .defn import ret_defs
+    from .facts import Rel
+    an = crate.an(path)
+    fx = crate.fx(path)
+    fields = crate.prog.adts[S]["fields"]
+    EQ = "core::cmp::PartialEq::eq"
+
+    def field_eq_atom(t, f):
+        if t[0] == "call" and t[1] == EQ and len(t[3]) == 2:
+            regs = set()
+            for a in t[3]:
+                if a[0] in ("at", "addr") and isinstance(a[1], str):
+                    regs.add(a[1])
+            return regs == {"A1." + f, "A2." + f}
+        return False
+    for b, t, sp, _ in ret_defs(an):
+        for w in fx.worlds_at(b):
+            w2 = set(w)
+            if t == ("const", "bool", 0):
+                continue
+            if t == ("const", "bool", 1):
+                pass
+            elif t[0] == "call" and t[1] == EQ:
+                w2.add(("true", t))
+            elif t[0] == "bin" and t[1] == "Eq":
+                w2.add(("eq",) + tuple(sorted((t[2], t[3]), key=repr)))
+            elif t[0] == "un" and t[1] == "Not":
+                w2.add(("false", t[2]))
+            else:
+                return None
+            if ("false", t) in w or (t[0] == "un" and ("true", t[2]) in w):
+                continue
+            rel = Rel(frozenset(fx.close(w2)), an)
+            for fl in fields:
+                f = fl["name"]
+                if fl["ty"]["k"] in ("int", "bool"):
+                    ok = rel.eq(("mem", "A1." + f, ("e",), None), ("mem", "A2." + f, ("e",), None))
+                else:
+                    ok = any(a[0] == "true" and field_eq_atom(a[1], f) for a in rel.w)
+                if not ok:
+                    return f
+    return None
 
 
 def fieldwise(crate, path, S, mname):
